@@ -308,8 +308,10 @@ static void make_hostile_header(rng_t *r, hin_t *h, int ep) {
         /* runs whose last value varint is cut, run lengths of zero, 9-byte prefixes */
         size_t k = rng_below(r, 5);
         for (size_t i = 0; i < k; i++) {
-            n += put_tagged(h->b + n, rng_chance(r, 1, 5) ? 0 : 1 + rng_below(r, 300));
-            n += put_tagged(h->b + n, gen_value(r));
+            uint64_t rl = rng_chance(r, 1, 5) ? 0 : 1 + rng_below(r, 300);
+            if (rng_chance(r, 1, 3)) rl = huge[rng_below(r, 11)] | (rng_chance(r, 1, 2) ? (1ULL << 56) : 0); /* 5..9-byte run lengths */
+            n += put_tagged(h->b + n, rl);
+            n += put_tagged(h->b + n, rng_chance(r, 1, 2) ? gen_value(r) | (1ULL << 60) : gen_value(r));
         }
         h->b[n++] = (uint8_t)(249 + rng_below(r, 7));
         n += rng_below(r, 3);
@@ -535,6 +537,17 @@ static void hostile_case(uint64_t idx, rng_t *r) {
     } else {
         make_hostile_header(r, &h, ep);
         run_one_input(ep, r, &h);
+        if (ep == EP_RLECOUNT && h.n > 1) {
+            /* hostile run records (9-byte lengths cannot come from truncating a valid encoding) cut at each of their
+             * last positions */
+            size_t full = h.n;
+            for (size_t back = 1; back <= 20 && back < full; back++) {
+                h.n = full - back;
+                run_one_input(ep, r, &h);
+                STAT_INC("c14_truncations_of_hostile_run_records");
+            }
+            h.n = full;
+        }
     }
     if (want_sample()) sample("{\"entry\":\"%s\",\"kind\":\"%s\",\"declared_bytes\":%zu,\"head\":\"%s\"}", EPN[ep], KN[h.kind], h.n, hexs(h.b, h.n < 10 ? h.n : 10));
     STAT_INC("distinct_nontrivial");
